@@ -84,6 +84,38 @@ def smooth_models(draw):
   return gm
 
 
+_OPT45 = ('<option timestep="%(dt)s" integrator="%(int)s" solver="Newton" cone="pyramidal" jacobian="dense" iterations="%(it)s" tolerance="0" '
+          'ls_iterations="50" ls_tolerance="1e-9"/>')
+_T45_K = ('<mujoco>' + _OPT45 + '<worldbody><geom name="farplane" type="plane" size="5 5 .1" pos="0 0 -4" contype="0" conaffinity="2"/>'
+          '<body name="b1" pos="0 0 .5"><joint name="h" type="hinge" axis="0 1 0" stiffness="%(k1)s" springref="0.2" damping="%(d1)s" armature="0.05" '
+          'range="-20 20" limited="true"/><geom type="capsule" size=".04 .15" pos="0 0 -.15" contype="0" conaffinity="0"/>'
+          '<body name="b2" pos="0 0 -.3"><joint name="b" type="ball" damping="%(d2)s" stiffness="%(k2)s"/>'
+          '<geom type="sphere" size=".06" pos=".1 0 -.1" contype="2" conaffinity="0"/></body></body></worldbody>'
+          '<equality><connect body1="b2" anchor="0.1 0.05 -0.2"/></equality>'
+          '<actuator><general name="a0" joint="h" dyntype="filter" dynprm="0.08" gainprm="%(g)s"/></actuator></mujoco>')
+_T45_S = ('<mujoco>' + _OPT45 + '<worldbody><site name="w" pos="0.4 0.1 0.6"/>'
+          '<body name="b1" pos="0 0 .5"><joint name="b" type="ball" damping="%(d1)s"/><geom type="capsule" size=".04 .15" pos="0 0 -.15" contype="0" conaffinity="0"/>'
+          '<site name="s1" pos="0.05 0.02 -0.2"/>'
+          '<body name="b2" pos="0 0 -.3"><joint name="sl" type="slide" axis="1 0 1" stiffness="%(k1)s" springref="0.1" damping="%(d2)s"/>'
+          '<geom type="box" size=".05 .06 .07" contype="0" conaffinity="0"/><site name="s2" pos="0.02 0.03 0"/></body></body></worldbody>'
+          '<tendon><fixed name="t0" stiffness="%(k2)s" damping="0.3"><joint joint="sl" coef="1.3"/></fixed>'
+          '<spatial name="t1" stiffness="4" damping="0.2"><site site="w"/><site site="s1"/><site site="s2"/></spatial></tendon>'
+          '<actuator><intvelocity name="a0" joint="sl" kp="%(g)s" actrange="-0.5 0.5"/><position name="a1" tendon="t1" kp="6" kv="0.5"/></actuator></mujoco>')
+
+
+@st.composite
+def pinned45(draw, kind):
+  n = lambda lo, hi, d=2: mg.fmt(draw(mg.num(lo, hi, d)))
+  integ = draw(st.sampled_from(['Euler', 'implicitfast']))
+  p = dict(dt=n(0.002, 0.006, 3), int=integ, it=('1' if kind == 'K' else '60'), k1=n(1, 15, 1), k2=n(1, 10, 1), d1=n(0.1, 1.0), d2=n(0.1, 1.0),
+           g=n(1, 8, 1))
+  xml = (_T45_K if kind == 'K' else _T45_S) % p
+  info = dict(option=dict(integrator=integ, cone='pyramidal', solver='Newton', flags={}), family=kind, pinned=True,
+              labels=sorted(['pinned:' + kind, 'family:' + kind, 'int:' + integ, 'jnt:ball', 'jnt:hinge' if kind == 'K' else 'jnt:slide',
+                             'eq:connect' if kind == 'K' else 'tendon:spatial']))
+  return mg.GenModel(xml, info)
+
+
 def near_boundary(lib, tm, s):
   """True if the state is within CLAMP_EXCL of a non-smooth boundary (evaluated with the tree C engine)."""
   d = lib.make_data(tm)
@@ -245,7 +277,8 @@ RULE = ('models: vf.gen_mjx.models without active contacts; family S = no constr
         'solver iterations=1, pyramidal cone; Euler/implicitfast/RK4. Points: states x params; excluded within 1e-3 of ctrl/force/act '
         'clamps, joint/tendon limit boundaries, tendon spring dead-band, any active contact. g = (qacc, qvel\', qpos\', act\') of '
         'mjx.step; inputs = tangent dq, qvel, ctrl, act, model parameters. Non-trivial = nv>=3 and (free/ball joint or stateful '
-        'actuator); distinct by (model xml, state seed).')
+        'actuator); distinct by (model xml, state seed). Two feature-pinned templates (K: connect+limit+springs+filter actuator, '
+        'S: ball+slide spring+fixed/spatial tendons+intvelocity) are run before the random structures.')
 ASSUMPTIONS = ['finite differences are taken on the same jitted function as AD (central; element-wise median of step sizes h, 2h, 4h with h=1e-6*max(1,|x_i|))',
                'reverse mode through the constraint solver is only defined for opt.iterations=1 (while_loop otherwise): '
                'family K uses iterations=1, family S has no constraint rows',
@@ -253,7 +286,7 @@ ASSUMPTIONS = ['finite differences are taken on the same jitted function as AD (
                'elliptic cone excluded: candidate finding F10 (all gradients NaN with any contact slot) / F2 (TypeError without); C45_FINDINGS=1 re-enables']
 
 
-def shard_main(ck, shard, nshards):
+def shard_main(ck, shard, nshards, only_case=None):
   mujoco, mjx, jax, jp = mjxload.load()
   lib = ck.lib('rel')
   worst = collections.defaultdict(float)
@@ -281,7 +314,7 @@ def shard_main(ck, shard, nshards):
     tm = c.tm
     quatj = any(int(t) in (0, 1) for t in np.asarray(tm.jnt_type))
     nt = tm.nv >= 3 and (quatj or tm.na > 0)
-    if ck.quick:
+    if ck.quick and not gm.info.get('pinned'):
       # three jit compilations per model (vmap g, jacfwd, jacrev), 30-200 s depending on load: the quick tier compiles
       # `quota` models per worker and spends them on non-trivial, moderately sized structures only
       if done[0] >= quota:
@@ -302,7 +335,8 @@ def shard_main(ck, shard, nshards):
       pts.append((sd, s))
     if not pts:
       return
-    done[0] += 1
+    if not gm.info.get('pinned'):
+      done[0] += 1
     t0 = time.time()
     G = GradCase(c, gm)
     labels = gm.labels()
@@ -378,9 +412,31 @@ def shard_main(ck, shard, nshards):
     if os.environ.get('C45_PRINT'):
       print('  model nv=%d nu=%d na=%d nx=%d nefc=%d %s fam=%s: %.1fs worst=%s' % (
           tm.nv, tm.nu, tm.na, G.nx, c.dx0._impl.nefc, gm.info['option']['integrator'], gm.info['family'], time.time() - t0, dict(worst)), flush=True)
+  if only_case is not None:
+    test(only_case)
+    return
+  # feature-pinned templates first (workers 0 and 1): connect + limit + spring/damper + stateful actuator with constraint rows (K),
+  # ball + slide spring + fixed/spatial tendons + intvelocity without constraint rows (S)
+  if shard % 3 in (0, 1):
+    kind = 'K' if shard % 3 == 0 else 'S'
+    ck.run_hypothesis(test, st.tuples(pinned45(kind), st.lists(mg.state_seed(), min_size=npoints, max_size=npoints, unique=True)),
+                      1 if ck.quick else 3, name='pinned-%s-%d' % (kind, shard), shrink=False)
   ck.run_hypothesis(test, st.tuples(smooth_models(), st.lists(mg.state_seed(), min_size=npoints, max_size=npoints, unique=True)),
                     nmodels, name='grad-%d' % shard, shrink=False)
   ck.extra['worst'] = dict(worst)
+
+
+def replay(ck, body):
+  """./verif C45 --replay <violation.json>"""
+  from checks.c43 import _gm_from_json
+  case = body['case']['case']
+  gm = _gm_from_json(case[0])
+  gm.info['pinned'] = True       # bypass the quick-tier quota / size filters
+  gm.info.setdefault('family', 'K' if 'farplane' in gm.xml else 'S')
+  try:
+    shard_main(ck, 0, 1, only_case=(gm, [int(x) for x in case[1]]))
+  except Violation as e:
+    ck.violation('Violation: %s' % e, dict(check='replay', case=case), bucket=getattr(e, 'bucket', None))
 
 
 def main(ck):
@@ -403,6 +459,9 @@ LEVEL_TEXT = '''Generated supported models in smooth configurations (no constrai
 contacts and one solver iteration); the full Jacobian of (qacc, next qvel, next qpos, next act) with respect to tangent-space
 position, velocity, control, activation and real-valued model parameters is computed by jax.jacfwd and jax.jacrev and compared with
 central finite differences of the same function; all entries must be finite.'''
-LEVEL_NOTE = '''Gradients through active contacts and through a converged multi-iteration solver in reverse mode are outside the
-domain (reverse mode is undefined for the solver while_loop). Points near clamps / limit boundaries are excluded using the tree C
-engine to evaluate the boundary distances. Gradients w.r.t. geom sizes and positions are not covered. Sampled, not exhaustive.'''
+LEVEL_NOTE = '''Gradients through active contacts and reverse mode through a multi-iteration solver (while_loop) are outside the
+domain. Excluded because of reported candidate findings (C45_FINDINGS=1 re-enables): the elliptic cone (all gradients NaN with any
+contact slot, TypeError without), frictionloss rows in family K (AD through the bracketing line search deviates up to 1.7e-2 from
+mutually consistent finite differences). Points near clamps / limit boundaries and with cond(M)>1e8 are excluded using the tree C
+engine; Jacobian entries whose three finite-difference estimates disagree are skipped and counted. Gradients w.r.t. geom sizes
+and positions are not covered. No shrinking; sharded over worker processes; time-budgeted. Sampled, not exhaustive.'''
